@@ -66,3 +66,5 @@ with cf.ThreadPoolExecutor(max_workers=3) as ex:
             if r["exit"] == 1:
                 for v in r["violations"][:3]:
                     print("      ", p, v[:200])
+
+subprocess.run("find %s/.cache -maxdepth 1 -name 'kani-target-*' -mmin +30 -exec rm -rf {} +" % V, shell=True, capture_output=True)
